@@ -18,7 +18,7 @@ class C13(PropBase):
     rule = ("valid streams of 20-80 frames of every format for 3 aircraft; junk lines (empty, NUL, 0x80-0xFF, invalid UTF-8 "
             "sequences, lone CR, > 64 KiB, truncated / over-long frames, non-hex) inserted at random positions; the table after "
             "the real reader thread ran over the junk-laden file against the table after the clean file (impl vs impl), and "
-            "against the model; file source (thorough: also the TCP source through the loopback peer of C18). Non-trivial = at "
+            "against the model; the same with a silent aircraft, a pause longer than delete_after and 11-30 junk / bad-parity lines among 1-25 accepted ones (junk must not advance the sweep); file source (thorough: also the TCP source through the loopback peer of C18). Non-trivial = at "
             "least one junk line of a kind that is not valid UTF-8 precedes a valid line; distinct by stream.")
     assumptions = ["BufRead::split and String::from_utf8_lossy are modelled as byte-wise line splitting and ASCII hex-digit filtering"]
 
@@ -76,6 +76,33 @@ class C13(PropBase):
             if nonutf_before_valid:
                 rep.nontriv(c)
         rep.sample({"junk_kinds": [j[:16].hex() for j in jl[:8]], "clean_lines": len(clean), "mixed_lines": len(mixed)})
+        # junk must not advance the expiry sweep either: a silent aircraft, then a run with few accepted lines and many junk lines
+        for c in range(40 if tier == "quick" else 600):
+            da = rng.choice([1, 2, 5])
+            u, r = rng.choice(gen.ALL_CFGS)
+            first = [gen.rand_frame(rng, rng.choice(["df11", "tc4", "df4", "tc11"]), 0x4A0001 + i).encode() for i in range(rng.randrange(1, 4))]
+            k = rng.randrange(1, 26)
+            second = [gen.rand_frame(rng, rng.choice(gen.FORMATS), 0x4B0000 + rng.randrange(3)).encode() for _ in range(k)]
+            mixed = list(second)
+            jl = [j for j in junk_lines(rng) if len(j) < 1000] + [b"8D4840D6202CC371C32CE0576099", b"5D4840D6FFFFFF"]   # also frames with a bad parity
+            for _ in range(rng.randrange(11, 31)):
+                mixed.insert(rng.randrange(len(mixed) + 1), rng.choice(jl))
+            ops = []
+            for tag, lines in (("clean", second), ("mixed", mixed)):
+                ops += ["reset", gen.cfg_op(use_update=u, relaxed=r, delete_after=da), f"case {tag}"] + gen.seg(first) \
+                    + [f"adv {da * 1000 + 1500}"] + gen.seg(lines) + ["dump"]
+            impl, _, model = run.execute(ops, model=driver_ok)
+            rep.evaluations += len(mixed); rep.traces += 1
+            self.corr(rep, impl, model, {"stale-stream": c}, None)
+            ci = core.split_cases(impl)
+            a = [l for l in ci.get("clean", []) if l.startswith(("row", "enddump"))]
+            b = [l for l in ci.get("mixed", []) if l.startswith(("row", "enddump"))]
+            if a != b:
+                self.fail(rep, f"junk lines change when silent aircraft are removed: {len(a) - 1} rows after the clean run, {len(b) - 1} after the junk-laden one "
+                               f"({k} accepted lines, delete_after {da})",
+                          {"ops": ops[len(ops) // 2:], "clean_ops": ops[:len(ops) // 2], "accepted_lines": k, "delete_after": da})
+                return
+            rep.nontriv(("stale", c))
 
     def judge_replay(self, rep, obj, impl, so, model):
         super().judge_replay(rep, obj, impl, so, model)
